@@ -388,6 +388,10 @@ def validate_pool_traces(run, traced, label="chunk_pool_trace_validation", min_t
         return j, r
     with ThreadPoolExecutor(max_workers=max(2, NCPU // 2)) as ex:
         res = list(ex.map(one, jobs))
+    # a validator that gave no verdict while many ran side by side (a starved JVM) is run once more on its own, with a longer limit
+    def _verdict(r):
+        return bool(r.violation) or any(x.startswith('<<"ACCEPTED"') or x.startswith('<<"REJECTED"') for x in r.prints)
+    res = [(j, r) if _verdict(r) else one(j) for j, r in res]
     acc, rej, states, helped, waited, failed, kmax, wmax = 0, [], 0, 0, 0, 0, 0, 0
     for (i, path, desc, lines), r in res:
         states += r.generated
